@@ -57,6 +57,8 @@ def gen_cases(tier, seed):
     add(mol="hubbard", lattice="chain4", u=4.0, mf="rhf", nelec=[2, 2], trial="rhf", wt="uhf", chol_cut=1e-8, fci=True)
     add(mol="hubbard", lattice="grid2x2", u=2.0, mf="uhf", nelec=[2, 1], trial="uhf", wt="uhf", chol_cut=1e-8, fci=True)
     add(mol="h4", basis="sto-3g", mf="rhf", trial="rhf", wt="rhf", ladder=True)
+    add(mol="oh", basis="sto-3g", mf="rohf", trial="uhf", wt="uhf", ladder=True, fci=True)
+    add(mol="lih", basis="sto-3g", mf="rhf", frozen=1, trial="rhf", wt="rhf", ladder=True)
     add(mol="lih", basis="sto-3g", mf="rhf", trial="rhf", wt="rhf", fci=True, sequence=[[0, False], [1, False], [1, True], [0, False]])
     add(mol="oh", basis="sto-3g", mf="rohf", trial="uhf", wt="uhf", fci=True, sequence=[[0, False], [1, False], [0, False]])
     if not q:
@@ -286,7 +288,7 @@ def run_case(case):
         U = np.eye(n)
         U[frozen:, frozen:] = q
         basis_coeff = C @ U  # orthonormal (in the AO metric) basis with the core orbitals kept
-    chol_cuts = [1e-4, 1e-6, 1e-8] if case.get("ladder") else [case["chol_cut"]]
+    chol_cuts = [1e-4, 1e-6, 1e-8, 1e-10] if case.get("ladder") else [case["chol_cut"]]
     ladder = []
     sample = {}
     cwd0 = os.getcwd()
@@ -404,8 +406,8 @@ def run_case(case):
                 events.append(judge("files/fci-of-written-hamiltonian-equals-molecular-fci", abs(e_w - e_ref), 30 * chol_cut + 1e-8, key + "/fci", written=float(e_w), pyscf=float(e_ref)))
                 cnt["fci_checks"] += 1
                 sample.update({"e_fci_written": float(e_w), "e_fci_pyscf": float(e_ref)})
-    if len(ladder) == 3:
-        # error shrinks (at least roughly linearly) with the threshold
-        events.append(ev("trial/error-decreases-with-chol-cut", bool(ladder[2] <= ladder[0] + 1e-12 and ladder[2] <= 30 * chol_cuts[2] + 1e-9), key=key + "/chol-ladder",
+    if len(ladder) == 4:
+        # error shrinks (at least roughly linearly) with the threshold, down to thresholds far below single precision
+        events.append(ev("trial/error-decreases-with-chol-cut", bool(ladder[-1] <= ladder[0] + 1e-12 and ladder[-1] <= 30 * chol_cuts[-1] + 1e-9), key=key + "/chol-ladder",
                          errors=ladder, cuts=chol_cuts))
     return {"events": events, "nontrivial": True, "sample": dict(sample, mol=case["mol"], mf=case["mf"], frozen=frozen, trial=case["trial"], walker_type=case["wt"]), "counters": cnt}
